@@ -76,10 +76,12 @@ func c12Teardown() {
 // exists), nodir, relnodir (it does not). The environment is what the PROCESS looks like while the loaders work, as far
 // as it is not the session path's directory: Store and Load are given a path and have to get along with that path's
 // directory alone, whatever else the process can or cannot write to. Environments:
-//   notmp    TMPDIR names a directory that does not exist (a container without /tmp, a removed per-login temp dir)
-//   tmpfile  TMPDIR names a regular file
-//   tmpdev   TMPDIR names a directory on ANOTHER filesystem than the session path's (a tmpfs /tmp, PrivateTmp=); on a
-//            machine where no such directory can be found the variable is left alone
+//
+//	notmp    TMPDIR names a directory that does not exist (a container without /tmp, a removed per-login temp dir)
+//	tmpfile  TMPDIR names a regular file
+//	tmpdev   TMPDIR names a directory on ANOTHER filesystem than the session path's (a tmpfs /tmp, PrivateTmp=); on a
+//	         machine where no such directory can be found the variable is left alone
+//
 // os.TempDir reads the variable on every call; it is set for the operation only and put back by the cleanup function.
 func c12SplitShape(shape string) (base, env string) {
 	if i := strings.IndexByte(shape, '+'); i >= 0 {
@@ -250,7 +252,10 @@ func c12LoadClass(err error) string {
 	case strings.Contains(m, "reading file"):
 		return "read"
 	}
-	return "other" // anything else (permission, ENOTDIR, …): outside the model, never expected here
+	if c12IsOSErr(err) {
+		return "other" // permission, ENOTDIR, …: outside the model, never expected here
+	}
+	return "?" // a refusal of Load itself whose text the harness does not know (a reworded message)
 }
 
 func c12ShowLoad(s *session.Session, err error) string {
@@ -273,8 +278,27 @@ func c12ShowStore(err error) string {
 		return "err:nodir"
 	case strings.HasSuffix(m, "not a directory"):
 		return "err:notdir"
+	case c12IsOSErr(err):
+		return "err:write"
 	}
-	return "err:write"
+	return "err:?" // a refusal of Store itself whose text the harness does not know
+}
+
+// c12IsOSErr: the error comes from the operating system (a *PathError, *LinkError, SyscallError … underneath)
+func c12IsOSErr(err error) bool {
+	c := err
+	for {
+		u, ok := c.(interface{ Cause() error })
+		if !ok || u.Cause() == nil {
+			break
+		}
+		c = u.Cause()
+	}
+	switch c.(type) {
+	case *os.PathError, *os.LinkError, *os.SyscallError:
+		return true
+	}
+	return false
 }
 
 func c12Time(m int) time.Time { return time.Unix(1577836800+int64(m), 0) }
@@ -400,7 +424,8 @@ func c12TornClass(path string) (cls string) {
 
 // c12Client: what a client started on a store holds, as far as it can be observed without touching the store:
 // the encrypted flag, key and salt (getters), key id and address (private fields, read by reflection).
-//   C<enc>:<key>/<key id>/<salt>/<address>     Cerr:<class> when NewMTProto refuses
+//
+//	C<enc>:<key>/<key id>/<salt>/<address>     Cerr:<class> when NewMTProto refuses
 func c12ShowClient(m *mtproto.MTProto, err error) string {
 	if err != nil {
 		return "Cerr:" + c12LoadClass(err)
@@ -424,12 +449,13 @@ func c12ShowClient(m *mtproto.MTProto, err error) string {
 }
 
 // c12History runs a history on one path. Items:
-//   S:<loader>:<session>:<mtime>   Store by a long-lived loader (the file's modification time forced to <mtime>)
-//   L:<loader>                     Load by a long-lived loader            F   Load by a fresh loader
-//   X:<bytes>:<mtime>              another writer leaves this content     D   the file is deleted
-//   C:<loader>                     a client is started on the long-lived loader: NewMTProto(Config{SessionStorage: loader})
-//   H                              everything handed out so far is looked at again: the sessions the Loads returned
-//                                  and the clients started must still be what they were when they were handed out
+//
+//	S:<loader>:<session>:<mtime>   Store by a long-lived loader (the file's modification time forced to <mtime>)
+//	L:<loader>                     Load by a long-lived loader            F   Load by a fresh loader
+//	X:<bytes>:<mtime>              another writer leaves this content     D   the file is deleted
+//	C:<loader>                     a client is started on the long-lived loader: NewMTProto(Config{SessionStorage: loader})
+//	H                              everything handed out so far is looked at again: the sessions the Loads returned
+//	                               and the clients started must still be what they were when they were handed out
 func c12History(shape string, items []string, forceTimes bool) string {
 	path, done := c12Place(shape)
 	defer done()
@@ -587,15 +613,18 @@ func (m *c12Mem) Store(s *session.Session) error {
 }
 
 // c12Cfg: the two ways Config has to name the session storage, set one at a time and BOTH at once.
-//   c12.cfg <storage> <state> <file> <session A> <session B>
-//   <storage>  what Config.SessionStorage is: file (session.NewFromFile on a path of its own), mem (a c12Mem), nil
-//   <state>    1: that storage holds session A     0: it holds nothing
-//   <file>     what Config.AuthKeyFile is: unset (""), or a path (another one than the storage's) at which there is
-//              0: no file   1: the file of session B   t<k>: the first k bytes of it   nodir: not even a directory
+//
+//	c12.cfg <storage> <state> <file> <session A> <session B>
+//	<storage>  what Config.SessionStorage is: file (session.NewFromFile on a path of its own), mem (a c12Mem), nil
+//	<state>    1: that storage holds session A     0: it holds nothing
+//	<file>     what Config.AuthKeyFile is: unset (""), or a path (another one than the storage's) at which there is
+//	           0: no file   1: the file of session B   t<k>: the first k bytes of it   nodir: not even a directory
+//
 // Config says: "if SessionStorage is nil, AuthKeyFile is required, otherwise it will be ignored". Shown: the client
 // NewMTProto returns; then the storage the Config names is emptied and the client saves its session: what that storage
 // holds afterwards (seen by a fresh loader), and whether the place Config must ignore is as it was.
-//   client=<C…|Cerr:…> saved=<ok:…|err:…|save-failed|-> other=<same|changed|->
+//
+//	client=<C…|Cerr:…> saved=<ok:…|err:…|save-failed|-> other=<same|changed|->
 func c12Cfg(kind, state, file string, a, b c12Sess) string {
 	place, done := c12Place("abs")
 	defer done()
@@ -1018,13 +1047,13 @@ var c12Hosts = []string{
 
 // c12JsonHosts: host names made of text that means something to a JSON writer or reader — the host name is
 // the only free text in the file. Built from what encoding/json itself does, not from a list of codes:
-//   * the escaped form of every character the writer escapes (all of U+0000..U+007F, U+2028, U+2029, an
+//   - the escaped form of every character the writer escapes (all of U+0000..U+007F, U+2028, U+2029, an
 //     ill-formed byte) taken as LITERAL text: a backslash followed by n, ", \, u00XX, u2028 … (the file must hold
 //     an escaped backslash followed by plain text, and reading it must give the six characters back, not the one);
 //     alone, inside other text, behind one / two more backslashes, in upper-case hex, several in a row;
-//   * the escaped form, and the twice escaped form, of every host name of c12Hosts;
-//   * quotes and backslashes at the ends; text that looks like the rest of the file;
-//   * very long names.
+//   - the escaped form, and the twice escaped form, of every host name of c12Hosts;
+//   - quotes and backslashes at the ends; text that looks like the rest of the file;
+//   - very long names.
 func c12JsonHosts(thorough bool) []string {
 	esc := func(h string) string { // the writer's escaped form of h, as text
 		b, err := json.Marshal(h)
